@@ -161,11 +161,13 @@ Definition start_of (pr : F.precision) (X : I.type) : I.type := I.ln (F.PtoP 60)
 Definition check_exp (prt pra : positive) (B p s e rs re : Z) (fexact : bool) : verdict :=
   let prt' := F.PtoP prt in let pra' := F.PtoP pra in
   if s =? 0 then decide_exact pra' B p 1 0 rs re fexact
+  else if fexact && feq B rs re 1 0 then VReject          (* exp x = 1 only for x = 0 *)
   else decide_encl pra' B p (T_exp prt' pra' B s e) (ival pra' B rs re) fexact.
 
 Definition check_expm1 (prt pra : positive) (B p s e rs re : Z) (fexact : bool) : verdict :=
   let prt' := F.PtoP prt in let pra' := F.PtoP pra in
   if s =? 0 then decide_exact pra' B p 0 0 rs re fexact
+  else if fexact && feq B rs re s e then VReject          (* exp x - 1 = x only for x = 0 *)
   else decide_encl pra' B p (T_expm1 prt' pra' B s e) (ival pra' B rs re) fexact.
 
 Definition check_ln (prt pra : positive) (slack : Z) (from_result : bool) (steps : list positive)
@@ -173,6 +175,7 @@ Definition check_ln (prt pra : positive) (slack : Z) (from_result : bool) (steps
   let prt' := F.PtoP prt in let pra' := F.PtoP pra in
   if s <=? 0 then VUndecided
   else if feq B s e 1 0 then decide_exact pra' B p 0 0 rs re fexact
+  else if fexact && (rs =? 0) then VReject                (* ln x = 0 only for x = 1 *)
   else
     let Y0 := if from_result then ival prt' B rs re else start_of prt' (ival prt' B s e) in
     decide_encl pra' B p (T_ln prt' pra' slack B s e Y0 steps) (ival pra' B rs re) fexact.
@@ -181,6 +184,7 @@ Definition check_ln1p (prt pra : positive) (slack : Z) (from_result : bool) (ste
     (B p s e rs re : Z) (fexact : bool) : verdict :=
   let prt' := F.PtoP prt in let pra' := F.PtoP pra in
   if s =? 0 then decide_exact pra' B p 0 0 rs re fexact
+  else if fexact && feq B rs re s e then VReject          (* ln (1 + x) = x only for x = 0 *)
   else
     let Y0 := if from_result then ival prt' B rs re
               else start_of prt' (I.add prt' (ione prt') (ival prt' B s e)) in
